@@ -1,0 +1,20 @@
+//go:build verif
+
+package operator
+
+import "sort"
+
+// VerifCheckpointRecordC15 reports the in-flight checkpoint record: its id and the source runners whose
+// barrier has not arrived yet.
+func (o *Operator) VerifCheckpointRecordC15() (id uint64, waiting []string, ok bool) {
+	o.mu.RLock()
+	defer o.mu.RUnlock()
+	if o.checkpoint == nil {
+		return 0, nil, false
+	}
+	for k := range o.checkpoint.srIDs {
+		waiting = append(waiting, k)
+	}
+	sort.Strings(waiting)
+	return o.checkpoint.checkpointID, waiting, true
+}
